@@ -76,8 +76,10 @@ def pack_branches(prog, pack_obj: ast.FunctionDef) -> list[PackBranch]:
     obj = func_params(pack_obj)[1]
     out = []
     chain = None
+    from ..core import isinstance_alternatives
+
     for st in pack_obj.body:
-        if isinstance(st, ast.If) and isinstance(st.test, ast.Call) and call_name(st.test) == "isinstance" and norm(st.test.args[0]) == obj:
+        if isinstance(st, ast.If) and isinstance_alternatives(st.test, obj) is not None:
             chain = st
             break
     if chain is None:
@@ -100,10 +102,10 @@ def pack_branches(prog, pack_obj: ast.FunctionDef) -> list[PackBranch]:
 
     cur = chain
     while cur is not None:
-        if not (isinstance(cur.test, ast.Call) and call_name(cur.test) == "isinstance" and norm(cur.test.args[0]) == obj):
+        alts = isinstance_alternatives(cur.test, obj)
+        if alts is None:
             raise AnalysisError(f"pack_obj: branch test {norm(cur.test)} is not an isinstance test on the object")
-        t = cur.test.args[1]
-        names = [resolve_cls_name(prog, module, x) for x in (t.elts if isinstance(t, ast.Tuple) else [t])]
+        names = [resolve_cls_name(prog, module, x) for x in alts]
         for nm in names:
             b = PackBranch(nm, cur)
             for s0 in cur.body:
